@@ -1089,6 +1089,17 @@ func (e *Engine) load(s *State, p PtrV) Value {
 	case CellObj:
 		return getPath(o.v, p.path)
 	case ArrObj:
+		if len(p.path) == 0 { // the whole array as a value: byte arrays are byte strings
+			bs := make([]*T, len(o.e))
+			for i, v := range o.e {
+				iv, ok := v.(IntV)
+				if !ok {
+					panic("load of a whole non-byte array")
+				}
+				bs[i] = iv.t
+			}
+			return BytesV{bs}
+		}
 		return getPath(o.e[p.path[0]], p.path[1:])
 	}
 	panic(fmt.Sprintf("load from %T (obj %d)", s.heap[p.id], p.id))
@@ -1112,6 +1123,18 @@ func (e *Engine) storeTo(s *State, p PtrV, v Value) {
 	case CellObj:
 		s.heap[p.id] = CellObj{setPath(o.v, p.path, v)}
 	case ArrObj:
+		if len(p.path) == 0 { // *arr = value
+			bv, ok := v.(BytesV)
+			if !ok || len(bv.b) != len(o.e) {
+				panic("store of a whole array: not a byte array of that length")
+			}
+			el := make([]Value, len(bv.b))
+			for i := range el {
+				el[i] = IntV{bv.b[i]}
+			}
+			s.heap[p.id] = ArrObj{el}
+			return
+		}
 		el := append([]Value(nil), o.e...)
 		el[p.path[0]] = setPath(el[p.path[0]], p.path[1:], v)
 		s.heap[p.id] = ArrObj{el}
@@ -1366,7 +1389,17 @@ func (e *Engine) execBlock(fn *ssa.Function, s *St) ([]succ, []Out) {
 					for i, v := range arr.e {
 						bs[i] = v.(IntV).t
 					}
-					s.env[in] = BytesV{bs}
+					lo, hi := 0, len(bs)
+					if in.Low != nil {
+						lo = cInt(e.get(s, in.Low))
+					}
+					if in.High != nil {
+						hi = cInt(e.get(s, in.High))
+					}
+					if lo < 0 || hi > len(bs) || lo > hi {
+						return nil, []Out{{s.State, true, constBytes("slice bounds out of range")}}
+					}
+					s.env[in] = BytesV{bs[lo:hi]}
 				} else {
 					s.env[in] = ListV{p.id}
 				}
